@@ -1,7 +1,50 @@
-(** C15 - a failed build names the offending line (examples; theorems added with Proofs/ErrProofs.v). *)
+(** C15 - a failed build names the offending line; messages are kept in order.
+    Property theorems only; proofs are in Proofs/ErrProofs.v. *)
 From Coq Require Import List ZArith NArith String.
 Import ListNotations.
-Require Import AvraV.Model.Base AvraV.Model.Ast AvraV.Model.Passes.
+Require Import AvraV.Model.Base AvraV.Model.Ast AvraV.Model.Eval AvraV.Model.Lines AvraV.Model.Parse AvraV.Model.Passes.
+Require Import AvraV.Proofs.ErrProofs.
+
+(** Errors are structured in the model ([Err (Some n)] = the text names line n), so attribution is a
+    statement about every error site, for every item, state and program:
+    - pass 2 (operand kind / range / count, undefined symbol in an instruction, a data directive or
+      .set, value out of range, device gate, .undef of an unknown alias, .def of a non-register): *)
+Theorem C15_pass2 : forall fuel t st cp it l,
+  pass2_item fuel t st (cp, it) = Err l -> l = Some (fst cp).
+Proof. exact pass2_item_err. Qed.
+Print Assumptions C15_pass2.
+(** - pass 1 (duplicate label, item in the wrong segment, address space): *)
+Theorem C15_pass1 : forall t st cp it l,
+  pass1_item t st (cp, it) = Err l -> l = Some (fst cp).
+Proof. exact pass1_item_err. Qed.
+Print Assumptions C15_pass1.
+(** - the parse loop: a line that is not valid syntax: *)
+Theorem C15_syntax : forall fuel inc g n l r skipped st,
+  parse_line l = None -> parse_iter fuel inc (S g) ((n, l) :: r) skipped st = Err (Some (n + 1)%N).
+Proof. exact syntax_error_line. Qed.
+Print Assumptions C15_syntax.
+(** - directives at parse time (unknown directive, wrong operand form, .if/.elif/.org with an
+      undefined symbol, unknown or second .device, .error): the one exception, stated, is the
+      "too many arguments" complaint of .byte, whose text carries no location: *)
+Theorem C15_directive : forall fuel inc d ops st line l,
+  (forall p s l', inc p s = Err l' -> l' = Some line) ->
+  directive_parse fuel inc d ops st line = Err l ->
+  l = Some line \/ (d = DByte /\ exists args, ops = OpList args /\ (1 < length args)%nat).
+Proof. exact directive_err. Qed.
+Print Assumptions C15_directive.
+
+(** Messages: .message / .warning append exactly their text with their own line number and change
+    nothing else (so images and sizes cannot depend on them); .error fails the build at its line. *)
+Theorem C15_message : forall fuel inc d m st line,
+  (d = DMessage \/ d = DWarning) ->
+  directive_parse fuel inc d (OpList [PS m]) st line =
+    Ok (with_msgs st (msgs st ++ [msg_text (match d with DMessage => "info" | _ => "warning" end)%string m line]), NewLine).
+Proof. exact message_effect. Qed.
+Theorem C15_error_directive : forall fuel inc m st line,
+  directive_parse fuel inc DError (OpList [PS m]) st line = Err (Some line).
+Proof. exact error_directive_fails. Qed.
+Print Assumptions C15_message.
+
 Definition err_line (src : string) : option (option N) :=
   match build_str 200 (list_ascii_of_string src) with Err l => Some l | _ => None end.
 Definition nl := String (Ascii.ascii_of_N 10) EmptyString.
@@ -9,5 +52,7 @@ Example C15_examples :
   err_line ("nop" ++ nl ++ " .db 256" ++ nl) = Some (Some 2%N) /\
   err_line ("nop" ++ nl ++ "nop" ++ nl ++ ".set a = b" ++ nl) = Some (Some 3%N) /\
   err_line (".if q" ++ nl ++ ".endif" ++ nl) = Some (Some 1%N) /\
-  err_line ("l: nop" ++ nl ++ "l: nop" ++ nl) = Some (Some 2%N).
+  err_line ("l: nop" ++ nl ++ "l: nop" ++ nl) = Some (Some 2%N) /\
+  err_line ("nop" ++ nl ++ " ldi r16, 300" ++ nl) = Some (Some 2%N) /\
+  err_line ("nop" ++ nl ++ "nop nop" ++ nl) = Some (Some 2%N).
 Proof. vm_compute. repeat split; reflexivity. Qed.
